@@ -135,6 +135,25 @@ fn make_zip(files: &[(&str, &[u8])], deflate: bool) -> Vec<u8> {
     w.finish().unwrap().into_inner()
 }
 
+/// A one-member archive whose central directory advertises (via a zip64 extra field) an
+/// uncompressed size of 2^63 bytes for the member; the data itself is intact.
+fn make_zip_lying_size(content: &[u8]) -> Vec<u8> {
+    let mut z = make_zip(&[("device.xml", content)], false);
+    let cd = z.windows(4).rposition(|w| w == [0x50, 0x4b, 0x01, 0x02]).unwrap();
+    let name_len = u16::from_le_bytes([z[cd + 28], z[cd + 29]]) as usize;
+    assert_eq!(u16::from_le_bytes([z[cd + 30], z[cd + 31]]), 0, "no extra field expected");
+    z[cd + 24..cd + 28].copy_from_slice(&0xffff_ffffu32.to_le_bytes());
+    z[cd + 30..cd + 32].copy_from_slice(&12u16.to_le_bytes());
+    let mut extra = vec![0x01, 0x00, 0x08, 0x00];
+    extra.extend_from_slice(&(1u64 << 63).to_le_bytes());
+    let at = cd + 46 + name_len;
+    z.splice(at..at, extra);
+    let eocd = z.windows(4).rposition(|w| w == [0x50, 0x4b, 0x05, 0x06]).unwrap();
+    let cd_size = u32::from_le_bytes(z[eocd + 12..eocd + 16].try_into().unwrap()) + 12;
+    z[eocd + 12..eocd + 16].copy_from_slice(&cd_size.to_le_bytes());
+    z
+}
+
 // ---------------------------------------------------------------------------------------------
 // independent decoder of the manifest (from the USB3 Vision manifest entry layout)
 
@@ -490,6 +509,7 @@ fn gen_case(rng: &mut Rng, thorough: bool) -> Case {
                 0 => make_zip(&[], true),
                 1 => make_zip(&[("a.xml", &text[..]), ("b.xml", b"<x/>")], rng.bool()),
                 2 => text.clone(), // flagged zip but plain text
+                3 if text.len() < 3000 => make_zip_lying_size(&text),
                 _ => make_zip(&[("device.xml", &text[..])], !rng.chance(1, 4)),
             }
         } else if rng.chance(1, 25) {
